@@ -400,18 +400,33 @@ func (r *funcResultsResolver) assignedResultsUntil(vs visits, target types.Objec
 			return false
 		case *ast.AssignStmt:
 			for i := range x.Lhs {
+				var assigned bool
+
 				switch lhs := x.Lhs[i].(type) {
 				// assign to variable
 				case *ast.Ident:
-					if r.Package.TypesInfo.ObjectOf(lhs) == target {
-						sourceResults = r.resultsAtReturnOrAssignment(vs, x.Rhs, len(x.Lhs), i)
-					}
+					assigned = r.Package.TypesInfo.ObjectOf(lhs) == target
 				// assign to field
 				case *ast.SelectorExpr:
-					if r.Package.TypesInfo.ObjectOf(lhs.Sel) == target {
-						sourceResults = r.resultsAtReturnOrAssignment(vs, x.Rhs, len(x.Lhs), i)
-					}
+					assigned = r.Package.TypesInfo.ObjectOf(lhs.Sel) == target
 				}
+
+				if !assigned {
+					continue
+				}
+
+				if x.Tok != token.ASSIGN && x.Tok != token.DEFINE {
+					// `n <<= s`, `total += d`: the right operand is not the value assigned,
+					// only the type of the variable is known
+					lhs := x.Lhs[i]
+					tpe := target.Type()
+					sourceResults = func(yield func(Result) bool) {
+						yield(Result{Type: tpe, Expr: lhs})
+					}
+					continue
+				}
+
+				sourceResults = r.resultsAtReturnOrAssignment(vs, x.Rhs, len(x.Lhs), i)
 			}
 			return false
 		}
